@@ -105,9 +105,11 @@ fn core_big(cx: &mut Ctx, thorough: bool) {
         let pats = pats_from(&pv, &t);
         cx.sum.dist("breadth_core_big_texts");
         cx.sum.dist_max("max_text_len", n as u64);
-        let ch = SuffixArray::analyze_text_characteristics(&t);
-        cx.sum.dist(&format!("big_text_alphabet_{}_rep_{}_entropy_{}", if ch.alphabet_size <= 4 { "le4" } else { "gt4" },
-            if ch.repetition_ratio > 0.7 { "high" } else { "low" }, if ch.entropy < 2.0 { "lt2" } else { "ge2" }));
+        // only to record which branch of the Adaptive selection the text is on (a panic in here is reported by the build below)
+        if let Ok(ch) = guarded(|| SuffixArray::analyze_text_characteristics(&t)) {
+            cx.sum.dist(&format!("big_text_alphabet_{}_rep_{}_entropy_{}", if ch.alphabet_size <= 4 { "le4" } else { "gt4" },
+                if ch.repetition_ratio > 0.7 { "high" } else { "low" }, if ch.entropy < 2.0 { "lt2" } else { "ge2" }));
+        }
         let cj = json!({"cell": "core", "alg": ALGS[a].1, "variant": v, "big": big_json(kind, n, seed), "patterns": pv});
         core_case_cj(cx, a, v, &t, &pats, false, cj);
         if enh { enhanced_case_cj(cx, &t, false, json!({"cell": "enhanced", "big": big_json(kind, n, seed)})); }
